@@ -115,7 +115,16 @@ def slots(ctx, cgf):
             a, b = (end[2][0], end[2][1]) if end[0] == 'call' else (end[2], end[3])
             okc = strip(a)[0] == 'arg' and is_call(strip(b), 'Vec::<T, A>::len')
         okr = is_int(start, 0) and okc
-    ctx.ob(['C04', 'C20'], 'R-EXPR', 'E3|placeholder-count', okr and not cycle_without(mpf, mbody, mh, {mp[0]['block']}),
+    okcount = okr and not cycle_without(mpf, mbody, mh, {mp[0]['block']})
+    if not okcount:
+        # equivalent form: while output.len() < target { push }
+        from r_panic import len_bounded_push_loop
+        r_ = len_bounded_push_loop(mpf, {'header': mh, 'body': mbody}, strict_only=True)
+        if r_[0]:
+            op, v, b, ps = r_[2]
+            okcount = strip(b)[0] == 'arg' and strip(v)[0] == 'arg' and len(ps) == 1
+            det = 'while len(output) < target { push }'
+    ctx.ob(['C04', 'C20'], 'R-EXPR', 'E3|placeholder-count', okcount,
            'exactly target − len(output) placeholders are pushed (half-open Range from 0, one unconditional push per iteration): %s' % det, mw)
     fe = mpf.expr_of_operand(mp[0]['term']['args'][1])
     okf = False
